@@ -166,6 +166,7 @@ def handleEv (d : D) (w : List String) : D × String :=
   | ["obs", st, en, dp] => observe d "obs" st en dp
   | ["fin", st, en, dp] => observe d "fin" st en dp
   | ["hang"] => (d, "reject hang")
+  | ["crash"] => (d, "reject crash")
   | _ => (d, "bad-op")
 
 def handle (d : Option D) (line : String) : Option D × String :=
